@@ -13,6 +13,8 @@ CONSTANTS
   MaxStore = 0
   CtxMode = "ignored"
   MaxStalls = 0
+  StaleNextHop = FALSE
   Tails = TRUE
+  Vias <- ViasAny
 CONSTRAINT Decorated
 INVARIANTS EmitDecorated RunAgrees
